@@ -243,6 +243,37 @@ def check(rep, F, tier, replay=None):
             rep.violation("REGISTER-last", "TxInputsBuilder::push_input|%s" % ",".join(keeps_first), "push_input keeps an existing registration (%s) instead of replacing it: an outpoint added again with its actual value keeps the stale first amount, and collateral return + total no longer equal the collateral inputs" % ", ".join(keeps_first), {})
         elif not any(t.endswith("BTreeMap::<K, V, A>::insert") for t in tos):
             rep.lost("TxInputsBuilder::push_input no longer stores through BTreeMap::insert (re-anchor REGISTER-last)")
+    # SAME-output: the output whose minimum ADA is tested is the output that is stored
+    rep.rule("SAME-output", "in both collateral setters the argument of min_ada_for_output and the value stored as collateral_return are the same output object (same constructor call, or both the caller's argument): testing a rebuilt copy (address + amount only) ignores a datum or reference script that the stored output carries")
+    n_so = 0
+    for nm_ in ("TransactionBuilder::set_collateral_return_and_total", "TransactionBuilder::set_total_collateral_and_return"):
+        fid_ = find_fn(rep, F, nm_)
+        if not fid_:
+            continue
+        fn_ = F.fns[fid_]
+        org_ = ff.Origins(F, fid_)
+        mc_ = [c for c in F.calls(fid_) if (c.to or "").endswith("min_ada_for_output")]
+        st_bbs = [(bi, how) for bi, how in stores_of(F, fid_, "collateral_return") if how != "clear"]
+        if not mc_ or not st_bbs:
+            rep.lost("%s: min_ada_for_output call / collateral_return store not found" % nm_)
+            continue
+        n_so += 1
+        rep.inst("SAME-output")
+        o1 = org_.of_operand(fn_["bbs"][mc_[0].bb]["t"][3][0])
+        o2 = set()
+        ffs_ = ff.FnFields(F, fid_)
+        for s_ in ffs_.stores_to(TB, "collateral_return"):
+            if isinstance(s_[4], list):
+                import p_c04 as _p4
+                o2 |= _p4._origins_any(org_, s_[4])
+        for c in F.calls(fid_):
+            if (c.to or "").endswith("TransactionBuilder::set_collateral_return"):
+                o2 |= org_.of_operand(fn_["bbs"][c.bb]["t"][3][1])
+        ctor1 = {x for x in o1 if x.startswith("call:") and x.split("@")[0].endswith("TransactionOutput::new")}
+        ctor2 = {x for x in o2 if x.startswith("call:") and x.split("@")[0].endswith("TransactionOutput::new")}
+        if ctor1 != ctor2:
+            rep.violation("SAME-output", nm_.rsplit("::", 1)[-1], "%s tests the minimum ADA of an output built by %s but stores an output built by %s: a return output carrying a datum hash with 1 043 020 lovelace passes the test of its bare copy (minimum 969 750) and is stored although its own minimum is 1 116 290" % (nm_.rsplit("::", 1)[-1], sorted(x.split("@")[0][5:].rsplit("::", 2)[-2] + "::new" for x in ctor1) or "the caller", sorted(x.split("@")[0][5:].rsplit("::", 2)[-2] + "::new" for x in ctor2) or "the caller"), {})
+    rep.floor("collateral setters testing min ADA", 2, n_so)
     # CO-return: return and total are written together
     rep.rule("CO-return", "every function that computes a collateral return (stores Some(output) into collateral_return) and sets the total collateral writes collateral_return on every path to its success return - Some(output) or None: a return left by an earlier call never stays next to a new total")
     from collections import deque as _dq
